@@ -100,6 +100,13 @@ def fabricate_reports(acc, ft, w, rnd, cid, seen_exec, order_ids):
             half = (o.qty - o.cum_qty) / 2
             qty_sets.append((o.cum_qty + half, o.qty - o.cum_qty - half, half))
             qty_sets.append((float(o.qty), 0.0, o.qty - o.cum_qty))
+        # one quantity given, the other left to its default (the order's current value)
+        for cq in {0.0, float(o.cum_qty), float(o.cum_qty) + 1.0, float(o.qty) / 2, float(o.qty)}:
+            qty_sets.append((cq, math.nan, math.nan))
+            if cq > o.cum_qty:
+                qty_sets.append((cq, math.nan, cq - o.cum_qty))
+        for lq in {0.0, float(o.leaves_qty), float(o.qty)}:
+            qty_sets.append((math.nan, lq, math.nan))
     combos = []
     for et in EXEC_TYPES:
         for st in STATUSES:
@@ -107,11 +114,11 @@ def fabricate_reports(acc, ft, w, rnd, cid, seen_exec, order_ids):
                 for cl in ids:
                     combos.append((et, st, cq, lq, last, cl))
     rnd.shuffle(combos)
-    for (et, st, cq, lq, last, cl) in combos[:160]:
+    for (et, st, cq, lq, last, cl) in combos[:220]:
         kw = {}
-        if et == "5" and rnd.random() < 0.5:
+        if et == "5" and rnd.random() < 0.6:
             kw["price"] = float(o.price) + 1
-            kw["order_qty"] = float(o.qty) + 3
+            kw["order_qty"] = rnd.choice([float(o.qty) + 3, max(1.0, float(o.qty) - 1), max(1.0, float(o.cum_qty)), 1.0])
         if rnd.random() < 0.2 and o.orig_clord_id:
             kw["orig_clord_id"] = o.orig_clord_id
         try:
@@ -298,7 +305,8 @@ def order_walk(acc, rnd, cid):
 
 # ------------------------------------------------------------------ part 2
 def gen_script(rnd):
-    s = ["logon"]
+    # a session resumed with these (next_num_in, next_num_out) on the initiator; the acceptor has the mirror image
+    s = ["resume:%d:%d" % rnd.choice([(1, 1), (1, 1), (5, 8), (12, 3), (2, 2), (40, 41)]), "logon"]
     for _ in range(rnd.randrange(0, 7)):
         s.append(rnd.choice(["app:I", "app:A", "app:I", "app:A", "testreq:I", "testreq:A", "hb:I"]))
     s.append(rnd.choice(["logout:I", "logout:A", "none"]))
@@ -318,6 +326,9 @@ async def run_with_helper(clock, script):
     from asyncfix.connection import ConnectionState as CS
     from vf.sim import endpoint as E
     j = Journaler()
+    nin, nout = [int(x) for x in script[0].split(":")[1:]]
+    if (nin, nout) != (1, 1):
+        j.set_seq_num(j.create_or_load("ACCEPTOR", "INITIATOR"), next_num_out=nout, next_num_in=nin)
     I = E.new_endpoint("generic", "INITIATOR", "ACCEPTOR", j, hb=30, name="I")
     I._connection_state = CS.NETWORK_CONN_ESTABLISHED
     ft = FIXTester(None, connection=I)
@@ -370,6 +381,10 @@ async def run_with_real_acceptor(clock, script):
     from vf.sim.net import settle
     j = Journaler()
     ja = Journaler()
+    nin, nout = [int(x) for x in script[0].split(":")[1:]]
+    if (nin, nout) != (1, 1):
+        j.set_seq_num(j.create_or_load("ACCEPTOR", "INITIATOR"), next_num_out=nout, next_num_in=nin)
+        ja.set_seq_num(ja.create_or_load("INITIATOR", "ACCEPTOR"), next_num_out=nin, next_num_in=nout)
     w = World(clock, lambda: E.new_endpoint("generic", "INITIATOR", "ACCEPTOR", j, hb=30, name="I"),
               lambda: E.new_endpoint("server", "ACCEPTOR", "INITIATOR", ja, hb=30, name="A"))
     I, A = w.ep["I"], w.ep["A"]
